@@ -23,7 +23,9 @@ def kebab(variant):
     return "-".join(p.lower() for p in parts)
 
 def snake_to_kebab(field):
-    return field.replace("_", "-")
+    # convert_case: from_case(Snake) splits at underscores and DROPS empty words (type_ -> type, dry__run -> dry-run, _x -> x),
+    # to_case(Kebab) lower-cases every word and joins with `-`
+    return "-".join(w.lower() for w in field.split("_") if w)
 
 def cmd_name(c):
     return c["name"] if c.get("name") is not None else kebab(c["variant"])
@@ -555,11 +557,22 @@ def corpus_sets():
            {"variant": "Name", "name": None, "doc": "Takes a name.\n\nLong text", "sub": None, "args": [arg("who", "opt", "str", long=True, short=True, optional=True, doc="Who")]}]}
     sets.append({"kind": "enum", "enum": ska})
     sets.append({"kind": "group", "members": [(False, skh), (False, ska)]})
+    # 17: field identifiers whose generated long name / value name is not a plain copy (convert_case drops empty words; to_uppercase
+    #     follows Unicode: ß -> SS), generated short names that are `_` or non-ASCII
+    sets.append({"kind": "enum", "enum": {"title": None, "cmds": [
+        {"variant": "Send", "name": None, "doc": "Send it", "sub": None, "args": [
+            arg("type_", "opt", "u8", long=True, doc="Kind"), arg("dry__run", "flag", "bool", long=True, short=True), arg("_x", "opt", "str", long=True, short=True, optional=True),
+            arg("data", doc="Payload")]},
+        {"variant": "Mess", "name": None, "doc": "Measure", "sub": None, "args": [
+            arg("größe", "pos", "u8", doc="Size"), arg("длина", "opt", "u8", long=True, short=True, doc="Length"), arg("straße", "pos", "str", optional=True)]}]}})
     return sets
     return sets
 
 VARIANTS = ["Get", "GetLed", "GetAdc", "Set", "SetLed", "Go", "Status", "Stat", "Start", "Stop", "Helper", "Hello", "He", "Exit", "Led", "Adc", "A", "Ab", "Abc", "Xy"]
-FIELDS = ["name", "level", "verbose", "file", "value", "item", "count", "mode", "ch", "flag_x", "out_file", "k", "host", "hex", "help_me"]
+FIELDS = ["name", "level", "verbose", "file", "value", "item", "count", "mode", "ch", "flag_x", "out_file", "k", "host", "hex", "help_me",
+          # identifiers where the generated names are not a plain copy: trailing / doubled / leading underscore, non-ASCII letters
+          # (the default value name is the field upper-cased by Unicode rules: straße -> STRASSE)
+          "type_", "dry__run", "_x", "größe", "длина", "straße"]
 DOCS = [None, None, "Do something", "Short text.", "Two sentences. Here..", "First paragraph\nstill first\n\nSecond paragraph.", "Trailing dots..",
         "One.\n\n\nTwo after two blank lines.", "A\n  \n\n \nB\nb\n\nC..", "\nLeading blank", "Trailing blanks\n\n",
         # the other Unicode White_Space characters (str::trim strips them, a line made of them is blank)
